@@ -376,10 +376,95 @@ def sec_shadow(ctx, rng, case):
     ctx.sample({"n": n, "tree": B.describe(items)[:16], "bound_controls": want_ctrl})
 
 
+
+def sec_repeat_until(ctx, rng, case):
+    """repeat_until loops: the wrapped loop equals the unrolled iterations (exit tested after each pass, at least one pass)"""
+    import cirq
+    import sympy
+
+    n = int(rng.integers(1, 4))
+    dims = (2,) * n
+    qubits = P.make_qubits(rng, dims)
+    mq = int(rng.integers(n))
+    body = []
+    # a rotation that makes the exit outcome reasonably likely in every pass, then optional entanglers
+    theta = float(rng.uniform(0.35, 0.65))
+    body.append({"t": "U", "spec": "ry", "p": (theta * np.pi,), "w": (mq,)})
+    # further body gates never touch the measured qubit, so every pass after the first exits with probability
+    # sin^2 or cos^2 of theta/2 >= 0.27 (the loop terminates with probability one, geometrically fast)
+    for _ in range(int(rng.integers(0, 3))):
+        st = P.gen_unitary_step(rng, dims, arity_w=(0.0, 0.6, 0.4, 0.0))
+        if mq not in st["w"]:
+            body.append(st)
+    key = "a"
+    body.append({"t": "M", "key": key, "w": (mq,)})
+    exit_on = int(rng.integers(2))
+    if rng.random() < 0.5:
+        if exit_on == 1:
+            cond = cirq.KeyCondition(cirq.MeasurementKey(key))
+        else:
+            cond = cirq.SympyCondition(sympy.Eq(sympy.Symbol(key), 0))
+    else:
+        cond = cirq.SympyCondition(sympy.Eq(sympy.Symbol(key), exit_on))
+    pre = [P.gen_unitary_step(rng, dims) for _ in range(int(rng.integers(0, 3)))]
+    post = [P.gen_unitary_step(rng, dims) for _ in range(int(rng.integers(0, 2)))]
+    post.append({"t": "M", "key": "z", "w": tuple(range(n))})
+    kmap = {"a": "b"} if rng.random() < 0.3 else {}
+    kw = {"repeat_until": cond}
+    if kmap:
+        kw["measurement_key_map"] = kmap
+    loop = cirq.CircuitOperation(cirq.FrozenCircuit(P.to_moments(body, qubits, rng, "greedy")), **kw)
+    circuit = cirq.Circuit(P.to_moments(pre, qubits, rng, "greedy") + [cirq.Moment(loop)] + P.to_moments(post, qubits, rng, "greedy"))
+    outkey = kmap.get(key, key)
+    body_ref = P.to_ref([dict(s_, key=outkey) if s_["t"] == "M" else s_ for s_ in body])
+    active = I.run(P.to_ref(pre), dims)
+    done = {}
+    tail = 0.0
+    for it in range(200):
+        nxt = I.run_branches(active, body_ref, dims)
+        active = {}
+        for rec, rho in nxt.items():
+            last = I.latest(rec, outkey)[0]
+            if last == exit_on:
+                done[rec] = done.get(rec, 0) + rho
+            else:
+                active[rec] = rho
+        tail = sum(float(np.trace(r).real) for r in active.values())
+        if tail < 1e-9:
+            break
+    ref = I.distribution(I.run_branches(done, P.to_ref(post), dims))
+    wit = dict(n=n, pre=P.describe(pre), body=P.describe(body), post=P.describe(post), exit_on=exit_on, kmap=kmap, condition=repr(cond))
+    ctx.check(sorted(cirq.measurement_key_names(circuit)) == sorted([outkey, "z"]), "keys==flat", "C12:repeat-until-keys", "%r" % sorted(cirq.measurement_key_names(circuit)), **wit)
+    kind = ["sv", "sv-nosplit", "dm"][int(rng.integers(3))]
+
+    def run(rng_obj):
+        if kind == "sv":
+            sim = cirq.Simulator(dtype=np.complex128, seed=rng_obj)
+        elif kind == "sv-nosplit":
+            sim = cirq.Simulator(dtype=np.complex128, split_untangled_states=False, seed=rng_obj)
+        else:
+            sim = cirq.DensityMatrixSimulator(dtype=np.complex128, seed=rng_obj)
+        return _records_key(sim.run(circuit, repetitions=1))
+
+    ex = SR.explore(run, max_paths=1200, min_branch=1e-9, min_path=1e-7, default_last=(exit_on == 1))
+    if ex.over_budget:
+        ctx.event("explorer-over-budget")
+        return
+    got = ex.distribution()
+    tv = L.tv_distance(got, ref)
+    slack = ex.cut_mass + tail + 1e-6
+    ctx.check(tv <= slack, "distribution==flat", "C12:repeat-until-distribution:" + kind,
+              lambda: "loop outcome distribution differs from the unrolled iterations by TV %.3g (allowed %.3g)" % (tv, slack), **wit)
+    ctx.event("repeat-until-paths", len(ex.paths))
+    ctx.distinct((tuple(P.describe(pre + body + post)), exit_on, tuple(kmap.items()), kind), nontrivial=len(ref) >= 3)
+    ctx.sample({"n": n, "body": P.describe(body), "exit_on": exit_on, "paths": len(ex.paths), "iterations_in_reference": it + 1})
+
+
 SECTIONS = [
     ("unitary", sec_unitary, 2000, 40000, 2.0),
     ("measured", sec_measured, 2800, 50000, 4.0),
     ("compose", sec_compose, 1200, 20000, 1.0),
     ("single_qubit", sec_single_qubit, 900, 15000, 0.5),
     ("shadow", sec_shadow, 2500, 50000, 3.0),
+    ("repeat_until", sec_repeat_until, 500, 10000, 2.0),
 ]
